@@ -280,7 +280,10 @@ def run(tape: Tape, params: dict) -> Outcome:
     host.programs[b"ws"] = None  # type: ignore
     from ..wsgen import app_ws_echo
 
-    host.programs[b"ws"] = [("call", app_ws_echo())]
+    # the WebSocket application sometimes closes by itself after a message or two and goes on listening: frames
+    # that are still on their way (a ping, more messages, the client's own close) then meet a closing connection
+    ws_close_after = tape.choice([None, None, 1, 2], "ws.app.close_after")
+    host.programs[b"ws"] = [("call", app_ws_echo(close_after=ws_close_after))]
     seg = [0, 1, 2, 7][tape.weighted([3, 3, 1, 1], "conn.seg")]
 
     def setup(conn: Any) -> None:
